@@ -3,6 +3,10 @@
 import glob, json, os, sys
 sys.path.insert(0, os.path.join(os.path.dirname(os.path.dirname(os.path.abspath(__file__))), "harness"))
 import common
+import io
+_real_stdout = sys.stdout
+if "--write" in sys.argv:
+    sys.stdout = io.StringIO()
 print("| property | property files | theorems | claimed |")
 print("|---|---|---|---|")
 man = json.load(open(os.path.join(common.VERIF, "MANIFEST.json")))
@@ -30,3 +34,20 @@ for d in sorted(glob.glob(os.path.join(common.VERIF, "seeded", "*"))):
         else:
             parts.append("%s: exit %s" % (p, r.get("exit")))
     print("| %s | %s | %s — needs: %s | %s |" % (os.path.basename(d), m.get("property"), (m.get("summary") or "")[:110].replace("|", "/"), (m.get("needs") or "")[:90].replace("|", "/"), "; ".join(parts) or "not run yet"))
+
+if "--write" in sys.argv:
+    text = sys.stdout.getvalue()
+    sys.stdout = _real_stdout
+    t1, t2 = text.split("\n\n", 1)
+    dp = os.path.join(common.VERIF, "DESIGN.md")
+    d = open(dp).read()
+
+    def put(d, begin, end, body):
+        a = d.index(begin)
+        a = d.index("\n", a) + 1
+        b = d.index(end)
+        return d[:a] + body.strip("\n") + "\n" + d[b:]
+    d = put(d, "<!-- THEOREM-TABLE-BEGIN", "<!-- THEOREM-TABLE-END", t1)
+    d = put(d, "<!-- SEEDED-TABLE-BEGIN", "<!-- SEEDED-TABLE-END", t2)
+    open(dp, "w").write(d)
+    print("DESIGN.md tables rewritten: %d theorem rows, %d seeded rows" % (t1.count("\n| C"), t2.count("\n| C")))
